@@ -152,13 +152,26 @@ def broken_decls(out):
     return res
 
 
+def prop_modules(prop):
+    """the files holding the property theorems of <prop>: FitProps/<prop>.lean and, when a property's theorems are
+    split over several files, FitProps/<prop><Suffix>.lean with a capitalised suffix (e.g. C01E2E.lean)"""
+    d = os.path.join(LEAN, 'FitProps')
+    extra = sorted(f[:-5] for f in os.listdir(d) if re.fullmatch(re.escape(prop) + r'[A-Z]\w*\.lean', f))
+    return [prop] + extra
+
+
 def source_theorems(prop):
-    """property theorems declared in FitProps/<prop>.lean: every `theorem <prop>_…`"""
-    path = os.path.join(LEAN, 'FitProps', prop + '.lean')
-    src = open(path).read()
-    ns = re.search(r'^namespace\s+([\w\.]+)', src, re.M)
-    ns = ns.group(1) + '.' if ns else ''
-    return [ns + n for n in re.findall(r'^theorem\s+(' + prop + r'_[\w\']+)', src, re.M)]
+    """property theorems declared in FitProps/<prop>.lean (and FitProps/<prop><Suffix>.lean): every `theorem <prop>_…`"""
+    res = []
+    for mod in prop_modules(prop):
+        path = os.path.join(LEAN, 'FitProps', mod + '.lean')
+        if mod != prop and not os.path.exists(path):
+            continue
+        src = open(path).read()
+        ns = re.search(r'^namespace\s+([\w\.]+)', src, re.M)
+        ns = ns.group(1) + '.' if ns else ''
+        res += [ns + n for n in re.findall(r'^theorem\s+(' + prop + r"_[\w\']+)", src, re.M)]
+    return res
 
 
 def forbidden_scan(ctx):
@@ -185,7 +198,8 @@ def audit_axioms(ctx, prop, theorems):
     os.makedirs(os.path.join(LEAN, 'Audit'), exist_ok=True)
     f = os.path.join(LEAN, 'Audit', prop + '.lean')
     with open(f, 'w') as fh:
-        fh.write(f'import FitProps.{prop}\n')
+        for mod in prop_modules(prop):
+            fh.write(f'import FitProps.{mod}\n')
         for th in theorems:
             fh.write(f'#print axioms {th}\n')
     t = time.time()
@@ -534,7 +548,7 @@ def prove(ctx, spec):
         if not REGEN[r](ctx):
             return proof
     required = spec.get('theorems', [])
-    ok, out = lake_build(ctx, [f'FitProps.{prop}'] + spec.get('lean_extra_targets', []))
+    ok, out = lake_build(ctx, [f'FitProps.{m}' for m in prop_modules(prop)] + spec.get('lean_extra_targets', []))
     try:
         declared = source_theorems(prop)
     except OSError:
